@@ -162,7 +162,7 @@ def _sibling_systems(g, text, sysw, M_sys, viols, stats):
 
 
 def run_system(text, ops_seed, sched_kwargs, n_generators=1, faults=None, props=("C13",), system_molweight=None, max_steps=400,
-               wall=120, embed="stub", policy_rounds="random", check_generate=True, sibling_systems=False):
+               wall=300, embed="stub", policy_rounds="random", check_generate=True, sibling_systems=False):
     """Returns dict with violations, stats, digest."""
     g = boot.load()
     faults = list(faults or [])
